@@ -621,19 +621,23 @@ def nodeInterfaces (node : Nid) : M Topo (List Nid) := do
     pure (l.map (·.2))) comps
   pure (direct.map (·.2) ++ sub.flatten)
 
-/-- the "disconnect from its parent service" loop shared by the removals -/
+/-- `Topology._disconnect_interfaces`: each interface and, for a DedicatedPort, each of its sub-interfaces is
+disconnected from the service it is connected to -/
 def detachAll (ifs : List Nid) : M Topo Unit :=
   forEach ifs (fun i => do
-    let peers ← peersOf i
-    let pn ← mapM' findNode peers
-    let sp := pn.filter (fun n => n.typ == "ServicePort")
-    match sp with
-    | [] => pure ()
-    | [p] => do
-        let _ ← parentService p.nid
-        let _ ← disconnectInterface [] (.iface i "")
-        pure ()
-    | _ => raise .topology)
+    let n ← findNode i
+    let kids ← if n.typ == "DedicatedPort" then firstNeighbor i .connects .connectionPoint else pure []
+    forEach (i :: kids) (fun ii => do
+      let peers ← peersOf ii
+      let pn ← mapM' findNode peers
+      let sp := pn.filter (fun n => n.typ == "ServicePort")
+      match sp with
+      | [] => pure ()
+      | [p] => do
+          let _ ← parentService p.nid
+          let _ ← disconnectInterface [] (.iface ii "")
+          pure ()
+      | _ => raise .topology))
 
 /-- `Topology.remove_node` -/
 def removeNode (name : String) : M Topo Unit := do
@@ -660,20 +664,27 @@ def removeSwitch (name : String) : M Topo Unit := do
   M.guard (n.typ == "Switch") .topology
   removeNode name
 
-/-- `Topology.remove_link` -/
+/-- `Topology.remove_link`: the link, then the ServicePorts it peered -/
 def removeLink (name : String) : M Topo Unit := do
   let n ← findByName .link name
+  let cps ← childrenOf n.nid [.link, .networkService] .connects .connectionPoint
+  let sps := cps.filter (fun x => x.typ == "ServicePort")
   deleteNode n.nid
+  forEach sps (fun sp => removeCpAndLinks sp.nid true)
 
 /-- `Topology.remove_network_service` -/
 def removeService (name : String) : M Topo Unit := do
   let n ← findByName .networkService name
+  let cps ← childrenOf n.nid [.link, .networkService] .connects .connectionPoint
+  detachAll (cps.map (·.nid))
   removeNs n.nid
 
 /-- `Node.remove_network_service` -/
 def nodeRemoveService (parent : Nid) (name : String) : M Topo Unit := do
   let nss ← childrenOf parent [.networkNode, .component] .has .networkService
   let ns ← need (nss.find? (fun n => n.name == name)) .query
+  let cps ← childrenOf ns.nid [.link, .networkService] .connects .connectionPoint
+  detachAll (cps.map (·.nid))
   removeNs ns.nid
 
 /-- `Node.remove_component` -/
@@ -714,5 +725,66 @@ def viewNodes (s : Topo) : List String := (s.nodes.filter (fun n => n.cls == .ne
 def viewFacilities (s : Topo) : List String := (s.nodes.filter (fun n => n.cls == .networkNode && n.typ == "Facility")).map (·.name)
 def viewLinks (s : Topo) : List String := (s.nodes.filter (fun n => n.cls == .link)).map (·.name)
 def viewServices (s : Topo) : List String := (s.nodes.filter (fun n => n.cls == .networkService)).map (·.name)
+
+
+/-! ## the op alphabet (one constructor per request kind of the driver) and one step function -/
+
+inductive TopoOp where
+  | addNode (fl : Flavour) (c : Nat) (a : NodeArgs)
+  | addComponent (fl : Flavour) (c : Nat) (parent : Nid) (a : CompArgs)
+  | addStorage (fl : Flavour) (c : Nat) (parent : Nid) (name : String) (nid : Option Nid) (props : List PropArg)
+  | nodeAddService (fl : Flavour) (c : Nat) (parent : Nid) (a : SvcArgs)
+  | addService (fl : Flavour) (c : Nat) (a : SvcArgs)
+  | addLink (fl : Flavour) (c : Nat) (name : String) (nid : Option Nid) (ltype : Option String)
+      (ifs : Option (List IfArg)) (tech : Option String) (props : List PropArg)
+  | nsAddInterface (fl : Flavour) (c : Nat) (svc : Nid) (cache : Cache) (name : String) (nid : Option Nid)
+      (itype : Option String) (props : List PropArg)
+  | nsRemoveInterface (fl : Flavour) (svc : Nid) (name : String)
+  | connect (fl : Flavour) (c : Nat) (svc : Nid) (cache : Cache) (i : IfArg)
+  | disconnect (cache : Cache) (i : IfArg)
+  | addFacility (fl : Flavour) (c : Nat) (name : String) (nid : Option Nid) (site : Option String)
+      (nstype : Option String) (nsprops : List PropArg) (ifs : Option (List (String × List PropArg))) (kw : List PropArg)
+  | addSwitch (fl : Flavour) (c : Nat) (name : String) (nid : Option Nid) (site : Option String)
+      (nstype : Option String) (nsprops : List PropArg) (ports : List (String × String × List PropArg))
+  | removeNode (name : String)
+  | removeFacility (name : String)
+  | removeSwitch (name : String)
+  | removeLink (name : String)
+  | removeService (name : String)
+  | nodeRemoveService (parent : Nid) (name : String)
+  | removeComponent (parent : Nid) (name : String)
+  | setProps (nid : Nid) (props : List PropArg)
+  | unsetProp (nid : Nid) (gname : Option String)
+  | rename (cls : Cls) (nid : Nid) (name : String)
+
+/-- what a call hands back to the caller: the id of the created element and/or the handle's interface cache -/
+structure Out where
+  ret : Option Nid
+  cache : Option Cache
+  deriving Repr, Inhabited
+
+def step : TopoOp → M Topo Out
+  | .addNode fl c a => addNode fl c a >>= fun r => pure ⟨some r.1, none⟩
+  | .addComponent fl c p a => addComponent fl c p a >>= fun r => pure ⟨some r, none⟩
+  | .addStorage fl c p n i pr => addStorage fl c p n i pr >>= fun r => pure ⟨some r, none⟩
+  | .nodeAddService fl c p a => nodeAddService fl c p a >>= fun r => pure ⟨some r.1, some r.2⟩
+  | .addService fl c a => addService fl c a >>= fun r => pure ⟨some r.1, some r.2⟩
+  | .addLink fl c n i lt ifs t p => addLink fl c n i lt ifs t p >>= fun r => pure ⟨some r.1, none⟩
+  | .nsAddInterface fl c svc ca n i t p => nsAddInterface fl c svc ca n i t p >>= fun r => pure ⟨some r.1, some ca⟩
+  | .nsRemoveInterface fl svc n => nsRemoveInterface fl svc n >>= fun _ => pure ⟨none, none⟩
+  | .connect fl c svc ca i => connectInterface fl c svc ca i >>= fun r => pure ⟨none, some r⟩
+  | .disconnect ca i => disconnectInterface ca i >>= fun r => pure ⟨none, some r⟩
+  | .addFacility fl c n i s t np ifs kw => addFacility fl c n i s t np ifs kw >>= fun r => pure ⟨some r, none⟩
+  | .addSwitch fl c n i s t np ports => addSwitch fl c n i s t np ports >>= fun r => pure ⟨some r, none⟩
+  | .removeNode n => removeNode n >>= fun _ => pure ⟨none, none⟩
+  | .removeFacility n => removeFacility n >>= fun _ => pure ⟨none, none⟩
+  | .removeSwitch n => removeSwitch n >>= fun _ => pure ⟨none, none⟩
+  | .removeLink n => removeLink n >>= fun _ => pure ⟨none, none⟩
+  | .removeService n => removeService n >>= fun _ => pure ⟨none, none⟩
+  | .nodeRemoveService p n => nodeRemoveService p n >>= fun _ => pure ⟨none, none⟩
+  | .removeComponent p n => removeComponent p n >>= fun _ => pure ⟨none, none⟩
+  | .setProps i p => setProps i p >>= fun _ => pure ⟨none, none⟩
+  | .unsetProp i g => unsetProp i g >>= fun _ => pure ⟨none, none⟩
+  | .rename c i n => rename c i n >>= fun _ => pure ⟨none, none⟩
 
 end FimVerif.Topo
